@@ -301,8 +301,12 @@ func genHistoryAt(t *rapid.T, l Layout, o histGenOpts, now int64) HistCase {
 			}
 			now += op.Advance
 		case k < 18:
-			op.Kind = "sync"
-			syncedOnce = true
+			if o.Abandon && rapid.IntRange(0, 7).Draw(t, "createAgain") == 0 {
+				op.Kind = "create-again"
+			} else {
+				op.Kind = "sync"
+				syncedOnce = true
+			}
 		default:
 			switch {
 			case o.Abandon && syncedOnce && rapid.IntRange(0, 2).Draw(t, "abandon") > 0:
@@ -486,6 +490,22 @@ func (h *histRunner) apply(op Op) (fs []Finding) {
 		}
 		h.db = db
 		h.facts["reopen"]++
+	case "create-again":
+		// a second Create (default, exclusive flags) of the path that already exists: must be refused, and
+		// neither the file nor the live handle may be affected (checked by the callers' byte comparisons)
+		before, _ := os.ReadFile(h.path)
+		db2, err := createWT(h.path, h.l)
+		if err == nil {
+			db2.Close()
+			fs = append(fs, h.finding("create-over-existing", "Create with default flags succeeded on an existing file"))
+			return
+		}
+		after, rerr := os.ReadFile(h.path)
+		if rerr != nil || string(after) != string(before) {
+			fs = append(fs, h.finding("create-over-existing", "a refused Create (%v) changed or removed the existing file (%v)", err, rerr))
+			return
+		}
+		h.facts["create-again"]++
 	case "abandon":
 		// drop the handle without Sync: the file must hold the last synced state
 		h.db.Close()
